@@ -321,6 +321,13 @@ func decodeTimeout(s string) (time.Duration, bool) {
 		return 0, false
 	}
 
+	// TimeoutValue is 1-8 ASCII digits, ParseInt would additionally accept a sign.
+	for i := 0; i < size-1; i++ {
+		if s[i] < '0' || s[i] > '9' {
+			return 0, false
+		}
+	}
+
 	t, err := strconv.ParseInt(s[:size-1], 10, 64)
 	if err != nil {
 		return 0, false
